@@ -37,7 +37,7 @@ def _consts(**kw):
 
 
 LOG_INVS = ["ViewIsSpec", "NoDuplicates", "ArrivalOrder", "WindowVisible", "ViewMatches", "RetainedSound",
-            "RawIsWindow", "FilterWellFormed"]
+            "RawIsWindow", "FilterWellFormed", "UnevaluableHidden"]
 PROBE_INVS = ["EvalIsDenote", "ParseRender", "ValuationsComplete", "ParseStable", "CmpLaws", "AtomNeedsWitness"]
 
 # ----------------------------------------------------------------------------------------
@@ -88,10 +88,18 @@ def lit_text(l, hexint=False):
         return "None"
     if t == "vec":
         return "(%d, %d, %d)" % tuple(l["v"])
+    if t == "badenum":
+        return BAD_ENUM_TEXT      # compiles; evaluating it raises KeyError (no such member)
     raise common.MachineryError("bad literal %r" % (l,))
 
 
+BAD_ENUM_TEXT = "PCode.PRIMITVE"
+BADENUM = {"ty": "badenum", "v": 0}
+
+
 def lit_py(l):
+    if l["ty"] == "badenum":
+        return tuple(BAD_ENUM_TEXT.split("."))
     return tuple(l["v"]) if l["ty"] == "vec" else pyval(l)
 
 
@@ -239,7 +247,11 @@ def project_tree(node):
         elif isinstance(n, mf.MessageFilterNode):
             shape.append("a")
             val = n.value
-            leaves.append([list(n.selector), n.operator or "", ("na",) if val is None else ("lit", val.value)])
+            if isinstance(val, mf.EnumFieldSpecifier):
+                val = ("lit", tuple(val))
+            else:
+                val = ("na",) if val is None else ("lit", val.value)
+            leaves.append([list(n.selector), n.operator or "", val])
         else:
             raise common.MachineryError("reflection bridge: unknown filter node %r" % (n,))
     walk(node)
@@ -448,9 +460,14 @@ def _tables(chk: Check, agg: Agg, kind, tree_depth, tok_len, probe_kinds, label,
     pk = "{%s}" % ",".join('"%s"' % k for k in probe_kinds)
     consts = _consts(TreeDepth=tree_depth, TreeKind=kind, TokLen=tok_len, ProbeKinds=pk)
     if mc_only:
-        common.model_check(chk, "FilterLog", "SPECIFICATION SpecProbe\n" + consts + "".join("INVARIANT %s\n" % i for i in PROBE_INVS),
-                           "FilterLog probes " + label, workers=1)
-        return
+        # model-only run (initial states are enumerated by one thread): started now, joined at the end of run()
+        cfgp = os.path.join(chk.scratch, "probe-mc.cfg")
+        with open(cfgp, "w") as f:
+            f.write("SPECIFICATION SpecProbe\n" + consts + "".join("INVARIANT %s\n" % i for i in PROBE_INVS))
+        import concurrent.futures as cf
+        ex = cf.ThreadPoolExecutor(max_workers=1)
+        fut = ex.submit(common.run_tlc, os.path.join(common.SPECS, "FilterLog.tla"), cfgp, 1, chk.scratch)
+        return lambda: (chk.require_model_ok(fut.result(), "FilterLog probes " + label), ex.shutdown())
     # the export run checks the same invariants on the same states (one TLC run instead of two)
     cfg = "SPECIFICATION MSpecProbe\n" + consts + "".join("INVARIANT %s\n" % i for i in PROBE_INVS)
     cfgp = os.path.join(chk.scratch, "probe-%s.cfg" % label.replace(" ", "_"))
@@ -623,7 +640,8 @@ def _replay_edges(edge_ids):
         else:
             ei = item
         e = g.edges[ei]
-        for wrapped in (False, True):
+        # plain edges: directly and behind a WrappingMessageLogger (which freezes); idle-action pairs: behind the wrapper
+        for wrapped in ((True,) if pre else (False, True)):
             im = _Impl(W, wrapped)
             hist = []
             deviated = False
@@ -661,8 +679,13 @@ def _replay_edges(edge_ids):
                 continue
             flt = _FLTS[e["dst"]["flt"] - 1]
             ents = [_ENTS[i - 1] for i in e["dst"]["arr"]] + ([_ENTS[act["e"] - 1]] if act["n"] == "Log" else [])
-            exc = exc or _diagnose_filter(flt, ents)
-            feats = {"kind": "log-edge", "act": act["n"], "what": bad[0], "cause": _edge_cause(obs.get("hasx", False), exc)}
+            after_raise = any(pe["obs"].get("raises") for pe in g.path_to(e["_s"]) + pre + [e])
+            if after_raise:
+                cause = "unevaluable-entry-retention"     # an entry arrived while the filter in force raised on it
+            else:
+                exc = exc or _diagnose_filter(flt, ents)
+                cause = _edge_cause(obs.get("hasx", False), exc)
+            feats = {"kind": "log-edge", "act": act["n"], "what": bad[0], "cause": cause}
             agg.add("B1 log machine: %s differs from specification" % bad[0], feats,
                     {"history": [_act_text(a) for a in hist], "window": W, "behind_wrapping_logger": wrapped,
                      "spec_view": obs["view"], "impl_view": v, "spec_result": obs.get("res"), "impl_result": repr(r), "exc": exc})
@@ -686,7 +709,7 @@ def _machine(chk: Check, agg: Agg, W, max_log, depth, use_ent, use_flt, label, p
     consts = _consts(W=W, MaxLog=max_log, Depth=depth, UseEnt=use_ent, UseFlt=use_flt)
     # the export run enumerates the same graph and checks the invariants on it
     cfg = ("SPECIFICATION MSpecLog\n" + consts + "CONSTRAINT Bound\n" + "".join("INVARIANT %s\n" % i for i in LOG_INVS)
-           + "PROPERTY LogOnlyAppends\n")
+           + "PROPERTY LogOnlyAppends\nPROPERTY LogAlwaysRetains\n")
     cfgp = os.path.join(chk.scratch, "mbt-%s.cfg" % label.replace(" ", "_"))
     with open(cfgp, "w") as f:
         f.write(cfg)
@@ -715,11 +738,11 @@ def _machine(chk: Check, agg: Agg, W, max_log, depth, use_ent, use_flt, label, p
     for n, items in results:
         chk.count(n)
         agg.extend(items)
-    chk.cov["traces_validated_against_impl"] += 2 * len(ids)
+    chk.cov["traces_validated_against_impl"] += 2 * len(ids) - len(pairs)
     chk.cov.setdefault("b1_edges_replayed", 0)
-    chk.cov["b1_edges_replayed"] += 2 * len(ids)
+    chk.cov["b1_edges_replayed"] += 2 * len(ids) - len(pairs)
     chk.cov.setdefault("b1_selfloop_pairs_replayed", 0)
-    chk.cov["b1_selfloop_pairs_replayed"] += 2 * len(pairs)
+    chk.cov["b1_selfloop_pairs_replayed"] += len(pairs)
     for e in g.edges:
         if e["src"] != e["dst"]:
             chk.nontrivial(("edge", label, e["_s"], common.skey(e["act"])))
@@ -913,25 +936,41 @@ def _walk_traces(chk: Check, n_walks, length, W):
         pool = [(_rand_sub_entry(rng) if sub else _rand_entry(rng, with_vec)) for _ in range(5)]
         im = _Impl(W, wrapped=rng.random() < 0.5)
         evs = []
+        since_clear = []
         for _ in range(length):
             c = rng.random()
             if c < 0.58:
                 e = rng.choice(pool)
+                if not im.paused:
+                    since_clear.append(e)
                 res, exc = im.log(e)
                 evs.append({"ev": "Log", "i": len(evs), "e": e, "ret": res, "raised": bool(exc), "exc": exc, "view": im.view()})
             elif c < 0.80:
                 toks = _rand_tokens(rng, rng.randrange(0, 3), atoms)
                 if rng.random() < 0.15:
                     toks = _mutate_tokens(rng, toks)
+                elif rng.random() < 0.22:
+                    # a filter whose evaluation raises (typo'd enum member), as a single atom.  set_filter does not
+                    # swallow, so it is normally installed only when nothing logged since the last clear trips it
+                    # (probed on the real filter; the specification decides legality on its own)
+                    ra = {"sel": ["Meta", "Q"] if rng.random() < 0.3 else list(rng.choice(_SELS3 if not sub else [["ObjectUpdate", "ObjectData", "ObjectData"]])),
+                          "op": rng.choice(["==", "!=", "<"]), "lit": BADENUM}
+                    rt = [["atom", ra]]
+                    trips = _diagnose_filter(rt, since_clear)
+                    if not trips or rng.random() < 0.1:
+                        toks = rt
                 r = im.set_filter(toks)
                 evs.append({"ev": "SetFilter", "i": len(evs), "toks": toks, "text": toks_text(toks), "res": "ok" if r[0] == "ok" else "raise",
                             "exc": r[1] if r[0] != "ok" else "", "view": im.view()})
+                if r[0] != "ok" and not r[1].startswith("NoMatch"):
+                    break       # set_filter raised while evaluating: the logger is left half-rebuilt, the walk ends
             elif c < 0.93:
                 b = not im.paused
                 im.set_paused(b)
                 evs.append({"ev": "Pause", "i": len(evs), "on": b, "view": im.view()})
             else:
                 im.clear()
+                since_clear = []
                 evs.append({"ev": "Clear", "i": len(evs), "view": im.view()})
         traces.append(evs)
     return traces
@@ -1207,13 +1246,15 @@ def _b2(chk: Check, agg: Agg, traces, W, label):
                     {"before": ev["before"][:1500], "after": str(ev["after"])[:1500], "entry": ev.get("e")})
         else:
             hasx = any("inapplicable-comparison-in-force" in f["fail"] for f in fl)
+            unev = any("entry-logged-while-filter-raised" in f["fail"] for f in fl)
             exc = ev.get("exc", "")
             if not exc:
                 # classification only: does the filter now in force raise on an entry of this walk?
                 flt = next((p["toks"] for p in reversed(traces[tid][:i + 1]) if p["ev"] == "SetFilter" and p["res"] == "ok"), None)
                 if flt is not None:
                     exc = _diagnose_filter(flt, [p["e"] for p in traces[tid][:i + 1] if p["ev"] == "Log"])
-            feats = {"kind": "log-walk", "act": ev["ev"], "what": clause.split("[")[0], "cause": _edge_cause(hasx, exc)}
+            feats = {"kind": "log-walk", "act": ev["ev"], "what": clause.split("[")[0],
+                     "cause": "unevaluable-entry-retention" if unev else _edge_cause(hasx, exc)}
             if feats["cause"] == "refused-well-formed":
                 feats["le_ge"] = _has_le_ge(ev.get("toks", []))
             agg.add("B2 walk: %s" % clause.split("[")[0], feats,
@@ -1256,6 +1297,9 @@ def run(chk: Check):
         "value is not a mapping has no selectable subfields",
         "a bare three-part selector asks for the presence of the field; a bare Meta selector for its truthiness (as the code documents)",
         "an ill-formed filter text is refused by set_filter and changes nothing",
+        "filters whose evaluation raises (a compare value naming a missing enum member) are single atoms in the history model; "
+        "set_filter does not swallow, so installing one is legal only when it can be evaluated on every retained entry "
+        "(FilterLog!SetFilterLegal, a guard); in walks an illegal one must raise and ends the walk; Log always retains",
         "re-imported entries are compared through filters only when they hold no vector field (LLSD has no vector type), and through "
         "a container-insensitive canonical projection + the serialized datagram for the logged message",
         "entries are tagged through packet_id / event body / request path to recognise them in list(logger)",
@@ -1269,21 +1313,22 @@ def run(chk: Check):
         chk.notes.append("phase %s: %.1fs" % (name, time.time() - t0[0]))
         t0[0] = time.time()
     # ---- part 1: expression semantics
+    join_mc = None
+    if not quick:
+        join_mc = _tables(chk, agg, "EQ2", 3, 1, ("tree",), "two atoms, depth 3 (model only)", mc_only=True)
     _tables(chk, agg, "LLUDP", 2, 4 if quick else 6, ("tree", "atom", "toks"), "LLUDP d2")
     _tables(chk, agg, "EQ", 1 if quick else 2, 1, ("tree",), "EQ")
     _tables(chk, agg, "HTTP", 1 if quick else 2, 1, ("tree",), "HTTP")
-    if not quick:
-        _tables(chk, agg, "EQ2", 3, 1, ("tree",), "two atoms, depth 3 (model only)", mc_only=True)
     lap("tables")
     # ---- part 2: the log machine
     if quick:
-        _machine(chk, agg, 2, 4, 6, "{1,2,3,4}", "{1,2,3,4,5,6}", "W2")
-        _machine(chk, agg, 1, 3, 6, "{1,2,4}", "{1,2,4,5,7}", "W1")      # (the ill-formed filter text is in this one)
+        _machine(chk, agg, 2, 4, 6, "{1,2,3,4}", "{1,2,3,5,6,8}", "W2")      # 8: raises on the LLUDP entries
+        _machine(chk, agg, 1, 3, 6, "{1,2,4}", "{1,2,4,7,9}", "W1")          # 7: ill-formed text, 9: raises on every entry
     else:
-        _machine(chk, agg, 2, 4, 9, "{1,2,3,4}", "{1,2,3,4,5,6,7}", "W2")
-        _machine(chk, agg, 1, 4, 7, "{1,2,3,4}", "{1,2,3,4,5,6,7}", "W1", pairs_mode="reduced")
-        _machine(chk, agg, 3, 5, 7, "{1,2,4}", "{1,2,4,5,6}", "W3", pairs_mode="reduced")
-        _machine(chk, agg, 2, 5, 6, "{1,2,3,4}", "{1,2,3,4,5,6,7}", "W2 five entries", pairs_mode="none")
+        _machine(chk, agg, 2, 4, 9, "{1,2,3,4}", "{1,2,3,4,5,6,7,8}", "W2", pairs_mode="reduced")
+        _machine(chk, agg, 1, 4, 7, "{1,2,3,4}", "{1,2,4,5,7,8,9}", "W1", pairs_mode="reduced")
+        _machine(chk, agg, 3, 5, 7, "{1,2,4}", "{1,2,4,5,8,9}", "W3", pairs_mode="reduced")
+        _machine(chk, agg, 2, 5, 6, "{1,2,3,4}", "{1,2,3,4,5,6,8}", "W2 five entries", pairs_mode="none")
     lap("machine")
     # ---- part 3: code -> spec
     n = 1 if quick else 8
@@ -1291,5 +1336,8 @@ def run(chk: Check):
     for W in ((1, 3) if quick else (1, 2, 3, 5)):
         _b2(chk, agg, _walk_traces(chk, 30 * n, 40, W), W, "walks W%d" % W)
     lap("traces")
+    if join_mc:
+        join_mc()
+        lap("join depth-3 model run")
     agg.flush(chk)
     chk.cov["exhaustive"] = True
